@@ -128,6 +128,12 @@ OptionFamilies == DOMAIN Dispatch
 Values(f) == DOMAIN Dispatch[f]
 
 \* documented effect of a value, as <<constant, value>> pairs ("N" stands for the horizon NMONTHS)
+\* losses between farm and shop, per food group (seaweed is handled like seafood)
+RowDistribution == {<<"WASTE_DISTRIBUTION.SUGAR", "row:distribution_loss_sugar">>, <<"WASTE_DISTRIBUTION.CROPS", "row:distribution_loss_crops">>,
+                    <<"WASTE_DISTRIBUTION.MEAT", "row:distribution_loss_meat">>, <<"WASTE_DISTRIBUTION.MILK", "row:distribution_loss_dairy">>,
+                    <<"WASTE_DISTRIBUTION.SEAFOOD", "row:distribution_loss_seafood">>, <<"WASTE_DISTRIBUTION.SEAWEED", "row:distribution_loss_seafood">>}
+GlobalDistribution == {<<"WASTE_DISTRIBUTION.SUGAR", "0.09">>, <<"WASTE_DISTRIBUTION.CROPS", "4.96">>, <<"WASTE_DISTRIBUTION.MEAT", "0.8">>,
+                       <<"WASTE_DISTRIBUTION.MILK", "2.12">>, <<"WASTE_DISTRIBUTION.SEAFOOD", "0.17">>, <<"WASTE_DISTRIBUTION.SEAWEED", "0.17">>}
 FeedBioCaps == {<<"MAX_SEAWEED_AS_PERCENT_KCALS_FEED", "10">>, <<"MAX_CELLULOSIC_SUGAR_AS_PERCENT_KCALS_FEED", "10">>,
                 <<"MAX_METHANE_SCP_AS_PERCENT_KCALS_FEED", "43">>, <<"MAX_SEAWEED_AS_PERCENT_KCALS_BIOFUEL", "10">>,
                 <<"MAX_CELLULOSIC_SUGAR_AS_PERCENT_KCALS_BIOFUEL", "100">>, <<"MAX_METHANE_SCP_AS_PERCENT_KCALS_BIOFUEL", "100">>}
@@ -164,12 +170,13 @@ Doc == [
                 relocated_crops |-> {<<"ADD_SEAWEED", "False">>, <<"ADD_METHANE_SCP", "False">>, <<"ADD_CELLULOSIC_SUGAR", "False">>, <<"ADD_GREENHOUSES", "False">>, <<"OG_USE_BETTER_ROTATION", "True">>},
                 greenhouse |-> {<<"ADD_SEAWEED", "False">>, <<"ADD_METHANE_SCP", "False">>, <<"ADD_CELLULOSIC_SUGAR", "False">>, <<"ADD_GREENHOUSES", "True">>, <<"OG_USE_BETTER_ROTATION", "False">>}],
   \* ("row:<column>": one hundred times that column of the country's data row)
-  waste |-> [zero |-> {<<"WASTE_RETAIL", "0">>},
-             tripled_prices_in_country |-> {<<"WASTE_RETAIL", "row:retail_waste_price_triple">>},
-             doubled_prices_in_country |-> {<<"WASTE_RETAIL", "row:retail_waste_price_double">>},
-             baseline_in_country |-> {<<"WASTE_RETAIL", "row:retail_waste_baseline">>},
-             tripled_prices_globally |-> {<<"WASTE_RETAIL", "6.08">>}, doubled_prices_globally |-> {<<"WASTE_RETAIL", "10.6">>},
-             baseline_globally |-> {<<"WASTE_RETAIL", "24.98">>}],
+  waste |-> [zero |-> {<<"WASTE_RETAIL", "0">>} \cup {<<"WASTE_DISTRIBUTION." \o g, "0">> : g \in {"SUGAR", "CROPS", "MEAT", "MILK", "SEAFOOD", "SEAWEED"}},
+             tripled_prices_in_country |-> {<<"WASTE_RETAIL", "row:retail_waste_price_triple">>} \cup RowDistribution,
+             doubled_prices_in_country |-> {<<"WASTE_RETAIL", "row:retail_waste_price_double">>} \cup RowDistribution,
+             baseline_in_country |-> {<<"WASTE_RETAIL", "row:retail_waste_baseline">>} \cup RowDistribution,
+             tripled_prices_globally |-> {<<"WASTE_RETAIL", "6.08">>} \cup GlobalDistribution,
+             doubled_prices_globally |-> {<<"WASTE_RETAIL", "10.6">>} \cup GlobalDistribution,
+             baseline_globally |-> {<<"WASTE_RETAIL", "24.98">>} \cup GlobalDistribution],
   crop_disruption |-> [zero |-> {<<"ADD_OUTDOOR_GROWING", "True">>, <<"RATIO_CROPS_YEAR1", "1">>, <<"RATIO_CROPS_YEAR10", "1">>},
                        all_crops_die_instantly |-> {<<"ADD_OUTDOOR_GROWING", "False">>, <<"RATIO_CROPS_YEAR1", "0">>}],
   grasses |-> [baseline |-> {<<"RATIO_GRASSES_YEAR1", "1">>, <<"RATIO_GRASSES_YEAR10", "1">>}, all_crops_die_instantly |-> {<<"RATIO_GRASSES_YEAR1", "0">>, <<"RATIO_GRASSES_YEAR10", "0">>}] ]
